@@ -600,14 +600,43 @@ func (g *Graph) BoolPhiDNF(phi *ssa.Phi, ctx *Ctx, want bool) []FactSet {
 // GuardEdges: the If edges that establish match — directly, or because the condition is the
 // outcome of a predicate helper of the repository every alternative of which (for that outcome)
 // contains a matching fact ("if q.full() { return }": the false edge establishes, per alternative
-// of full() == false, "limit off" or "below the limit").
+// of full() == false, "limit off" or "below the limit"), or the outcome of a short-circuit
+// boolean (a || b, a && b held in a variable) every alternative of which does.
 func (g *Graph) GuardEdges(match func(t *Term, pol bool) bool) []*Node {
-	return g.Select(EdgeWhere(func(t *Term, pol bool, n *Node) bool {
+	var entails func(t *Term, pol bool, ctx *Ctx, depth int) bool
+	entails = func(t *Term, pol bool, ctx *Ctx, depth int) bool {
 		if match(t, pol) {
 			return true
 		}
+		if depth <= 0 {
+			return false
+		}
 		nt, npol := normFact(t, pol)
-		if nt == nil || nt.Op != "call" {
+		if nt == nil {
+			return false
+		}
+		allAlts := func(alts []FactSet) bool {
+			if len(alts) == 0 {
+				return false
+			}
+			for _, alt := range alts {
+				found := false
+				for _, f := range alt {
+					if entails(f.Cond, f.Pol, f.Cond.Ctx, depth-1) {
+						found = true
+						break
+					}
+				}
+				if !found {
+					return false
+				}
+			}
+			return true
+		}
+		if phi, ok := nt.V.(*ssa.Phi); ok && nt.Op == "phi" {
+			return allAlts(g.BoolPhiDNF(phi, nt.Ctx, npol))
+		}
+		if nt.Op != "call" {
 			return false
 		}
 		cv, ok := nt.V.(*ssa.Call)
@@ -623,26 +652,12 @@ func (g *Graph) GuardEdges(match func(t *Term, pol bool) bool) []*Node {
 			d = nt.Ctx.Depth + 1
 		}
 		cctx := &Ctx{Parent: nt.Ctx, Site: cv, Fn: callee, Depth: d}
-		var alts []FactSet
 		if npol {
-			alts = g.P.AcceptDNF(callee, cctx, 0, 2)
-		} else {
-			alts = g.P.RejectDNF(callee, cctx, 0, 2)
+			return allAlts(g.P.AcceptDNF(callee, cctx, 0, 2))
 		}
-		if len(alts) == 0 {
-			return false
-		}
-		for _, alt := range alts {
-			found := false
-			for _, f := range alt {
-				if match(f.Cond, f.Pol) {
-					found = true
-				}
-			}
-			if !found {
-				return false
-			}
-		}
-		return true
+		return allAlts(g.P.RejectDNF(callee, cctx, 0, 2))
+	}
+	return g.Select(EdgeWhere(func(t *Term, pol bool, n *Node) bool {
+		return entails(t, pol, n.Ctx, 3)
 	}))
 }
